@@ -358,6 +358,10 @@ where
         let (write_half, read_half) = Self::split_stream(stream);
         self.write_half = write_half;
         self.read_half = read_half;
+
+        // The task started in `spawn` reads the old stream, which is gone: replies now arrive
+        // on the new one.
+        poll_replies(self.read_half.clone(), self.pending_requests.clone());
     }
 
     fn get_connection(&self) -> SharedConnection {
